@@ -99,6 +99,21 @@ def check_doc(case: Dict[str, Any]) -> Tuple[List[Tuple[str, str]], Dict[str, An
         extra = [t for t in got if t not in want]
         out.append(('body-text-changed', '%s-> body tokens differ: lost %s duplicated %s invented %s%s\nrendered %s' % (
             desc, lost[:6], dup[:6], extra[:6], '' if (lost or dup or extra) else ' (reordered)', trunc(html, 900))))
+    # (a') "with inline and block markup removed and nothing else changed": no markup character is left in the running text
+    def _outside_pre(node: Any, acc_: List[str]) -> None:
+        if node.nodeType == node.TEXT_NODE:
+            acc_.append(node.data)
+            return
+        if node.nodeType == node.ELEMENT_NODE and (node.tagName == 'pre' or (node.tagName == 'table' and 'fieldTable' in node.getAttribute('class'))):
+            return
+        for ch in node.childNodes:
+            _outside_pre(ch, acc_)
+    running: List[str] = []
+    _outside_pre(dom.documentElement, running)
+    rest = _TOK.sub('', ''.join(running))
+    left = sorted({ch for ch in rest if ch in ('{}' if fmt == 'epytext' else '*`\\')})
+    if left and not errs:
+        out.append(('markup-residue', '%s-> markup characters %s are left in the visible text: %r' % (desc, left, trunc(''.join(running), 400))))
     # (b) pre blocks verbatim
     pres = [_text(p) for p in dom.getElementsByTagName('pre')]
     for blk in docmodel.pre_blocks(doc['blocks']):
